@@ -113,7 +113,7 @@ class Interp:
                                 defs.setdefault(x.id, []).append(None)
                 self._bool_defs = defs
             vs = defs.get(test.id, [])
-            if len(vs) == 1 and isinstance(vs[0], (ast.BoolOp, ast.Compare, ast.UnaryOp)) and test.id not in self.fi.params:
+            if len(vs) == 1 and isinstance(vs[0], (ast.BoolOp, ast.Compare, ast.UnaryOp, ast.Call)) and test.id not in self.fi.params:
                 return self._decide(vs[0], env, depth + 1)
         return None
 
